@@ -188,6 +188,9 @@ type c02Session struct {
 	Tracking bool `json:"tracking"`
 	Sasl     bool `json:"sasl"`
 	Burst    bool `json:"burst"`
+	// Caps: capability negotiation is on, the application wants the common IRCv3 capabilities and the
+	// server grants them all before the session's lines arrive
+	Caps bool `json:"caps,omitempty"`
 	// Lines: K=0 probe (hostile), K=1 well-formed numbered PRIVMSG, K=2 marker
 	Lines []c02Line `json:"lines"`
 	// TempErrAt: (not in burst mode) the numbered line with this index reaches the client in two reads with a
@@ -238,6 +241,14 @@ var c02Warmup = []string{
 	":other!o@h JOIN #d",
 }
 
+// c02Caps: capabilities an application may want and a server may grant; several of them change what
+// arrives (tags on every line, extra JOIN parameters, batches)
+const c02Caps = "server-time account-tag message-tags batch echo-message extended-join multi-prefix account-notify away-notify chghost labeled-response userhost-in-names setname invite-notify cap-notify"
+
+// c02TagProbes: tag sections with the well-known keys and empty, valueless, malformed or huge values
+var c02TagProbes = []string{"@time= ", "@time ", "@time=Z ", "@time=2011-10-19T16:40:51.620 ", "@time=garbage ", "@time=9999999999999999999 ", "@time=2011-10-19T16:40:51.620Z;time= ",
+	"@account= ", "@account ", "@batch= ", "@batch ", "@batch=+ ", "@batch=- ", "@label= ", "@msgid= ", "@msgid;time;account;batch;label ", "@+typing= ", "@+ ", "@=x ", "@;; ", "@time=\\ ", "@time=\\"}
+
 func genBuiltinProbe(t *rapid.T) string {
 	verbs := []string{"001", "433", "NICK", "PING", "CAP", "410", "AUTHENTICATE", "903", "904", "908", "JOIN", "KICK", "MODE", "PART", "QUIT", "TOPIC", "311", "324", "332", "352", "353", "671", "PRIVMSG", "NOTICE", "REGISTER", "CONNECTED", "DISCONNECTED", "ERROR",
 		"JOIN", "JOIN", "KICK", "MODE", "MODE", "PART", "QUIT", "NICK", "NICK", "TOPIC", "311", "324", "332", "352", "352", "353", "353", "671"}
@@ -266,6 +277,9 @@ func genBuiltinProbe(t *rapid.T) string {
 			return ":" + nk("mnick") + "!u@h QUIT :bye"
 		}
 		return ":irc.server 353 me = " + ch() + " :" + nk("mnick") + " @" + nk("mnick2")
+	}
+	if rapid.IntRange(0, 5).Draw(t, "tag_probe") == 0 {
+		b.WriteString(rapid.SampledFrom(c02TagProbes).Draw(t, "tag_section"))
 	}
 	switch rapid.IntRange(0, 7).Draw(t, "probe_src") {
 	case 0:
@@ -305,6 +319,7 @@ func genC02Session(t *rapid.T) *c02Session {
 		Tracking: rapid.Bool().Draw(t, "tracking"),
 		Sasl:     rapid.IntRange(0, 3).Draw(t, "sasl") == 0,
 		Burst:    rapid.Bool().Draw(t, "burst"),
+		Caps:     rapid.IntRange(0, 2).Draw(t, "caps") == 0,
 	}
 	n := rapid.IntRange(5, 60).Draw(t, "nlines")
 	seq := 0
@@ -355,6 +370,10 @@ func runC02Session(s *c02Session) *Violation {
 			cfg.Sasl = sasl.NewPlainClient("", "user", "pw")
 			cfg.Capabilites = []string{"a", "b"}
 		}
+		if s.Caps {
+			cfg.EnableCapabilityNegotiation = true
+			cfg.Capabilites = append(cfg.Capabilites, strings.Fields(c02Caps)...)
+		}
 	}})
 	defer tc.shutdown()
 	var mu sync.Mutex
@@ -382,6 +401,22 @@ func runC02Session(s *c02Session) *Violation {
 	})
 	if err := tc.connect(); err != nil {
 		return violationf("C02", "connect: %v", err)
+	}
+	if s.Caps {
+		c := tc.conn()
+		if !c.WaitWritten(func(w string) bool { return strings.Contains(w, "CAP LS") }, stallTimeout()) {
+			return violationf("C02", "capability negotiation enabled but no CAP LS was sent")
+		}
+		c.SendLine(":irc.server CAP * LS :" + c02Caps)
+		if !c.WaitWritten(func(w string) bool { return strings.Contains(w, "CAP REQ") }, stallTimeout()) {
+			return violationf("C02", "no CAP REQ after the server listed the wanted capabilities")
+		}
+		ls, _ := SplitCRLF(c.Written())
+		for _, l := range ls {
+			if strings.HasPrefix(l, "CAP REQ :") {
+				c.SendLine(":irc.server CAP me ACK :" + l[len("CAP REQ :"):])
+			}
+		}
 	}
 	// ... and an application goroutine that keeps asking the client questions while lines arrive
 	stopPoll := make(chan struct{})
